@@ -4,7 +4,7 @@ from txcommon import *
 class C01(TxCheck):
     ID = "C01"
     MODE = "c01"
-    LEVEL = "exploration"   # until the per-event preservation lemmas are all closed (coq/Tx/PROOFS.md)
+    LEVEL = "proof"
     N_QUICK = 120
     N_THOROUGH = 4000
     KINDS = ["balance_differs_from_ledger", "spendable_set_differs_from_ledger", "unconfirmed_set_differs_from_ledger", "store_error"]
